@@ -267,7 +267,7 @@ func checkPropose(r *Run, p *Prog) {
 	// success returns
 	n := 0
 	for _, ex := range c.Exits() {
-		if ex.Return == nil || len(ex.Return.Results) != 2 || !isNilIdent(fn, ex.Return.Results[1]) {
+		if ex.Return == nil || len(ex.Return.Results) != 2 || !isNilIdent(fn, ex.Return.Results[1]) { // the loop-exit return of the accumulated error is C11.R2.failure's subject
 			continue
 		}
 		n++
